@@ -1,5 +1,5 @@
 (* C09 — introspection tells the truth about every token, only to authenticated callers.  Statements only. *)
-From FositeModel Require Import Base.Str Model.Scope Model.Core Model.Flows Proofs.CoreInv Proofs.StepInv Proofs.Decay Proofs.StepProps.
+From FositeModel Require Import Base.Str Model.Scope Model.Core Model.Flows Proofs.CoreInv Proofs.StepInv Proofs.Decay Proofs.StepProps Cases.CasesHist Cases.Monitors Proofs.MonitorC09.
 
 (* an access token is reported active exactly when a record minted by this server is stored under its
    signature, is unexpired, the presented string authenticates, and every required scope is covered; the
@@ -56,3 +56,10 @@ Theorem C09_endpoint_requires_authenticated_caller :
   end.
 Proof. exact introspect_ep_requires_caller. Qed.
 Print Assumptions C09_endpoint_requires_authenticated_caller.
+
+(* the monitor's clause "with refresh-token introspection disabled no refresh token is ever reported active, under any
+   hint" (Cases/Monitors.v rt_silent, the first test of judge_C09) holds of the model's probe vector in every state *)
+Theorem C09_monitor_disabled_refresh_introspection_clause_holds_of_the_model : forall cfg s,
+  rt_silent cfg (probes cfg s) = true.
+Proof. exact rt_silent_model. Qed.
+Print Assumptions C09_monitor_disabled_refresh_introspection_clause_holds_of_the_model.
